@@ -48,9 +48,6 @@ EXEMPT = {
     ("kanata_state_machine::kanata::dynamic_macro::DynamicMacroRecordState", "current_delay"):
         "recorded inter-key delay; it stops counting only once every covered timer has expired, and replay decisions depend only "
         "on those timers (triaged with notes/triage_harness.rs.txt: stepper and blocking loop replay identically)",
-    ("kanata_keyberon::layout::OneShotState", "ticks_to_ignore_events"):
-        "consulted only while a one-shot is active, and an active one-shot (keys non-empty, timeout > 0) makes the predicate false "
-        "(triaged: no output difference could be produced)",
     ("kanata_state_machine::kanata::sequences::SequenceState", "ticks_until_timeout"): "counts only while activity != Inactive, which the predicate reads through is_inactive()",
     ("kanata_state_machine::kanata::sequences::SequenceState", "overlapped_sequence"): "cleared on key-state changes while a sequence is active (event-driven); activity is read by the predicate through is_inactive()",
     ("kanata_state_machine::kanata::sequences::SequenceState", "raw_oscs"): "cleared when a sequence is activated (a key press); activity is read by the predicate through is_inactive()",
